@@ -193,15 +193,17 @@ impl EGraph {
         fn collect_rules<'a>(
             ruleset: &str,
             rulesets: &'a IndexMap<String, Ruleset>,
-            ids: &mut Vec<(String, &'a ResolvedCoreRule)>,
+            ids: &mut Vec<((String, String), &'a ResolvedCoreRule)>,
         ) -> Result<(), Error> {
             let Some(r) = rulesets.get(ruleset) else {
                 return Err(Error::BackendError(format!("no such ruleset: {ruleset}")));
             };
             match r {
                 Ruleset::Rules(rules) => {
+                    // Rule names are only unique within their ruleset, so the owning
+                    // ruleset is part of the key.
                     for (rule_name, (core_rule, _)) in rules.iter() {
-                        ids.push((rule_name.clone(), core_rule));
+                        ids.push(((ruleset.to_owned(), rule_name.clone()), core_rule));
                     }
                 }
                 Ruleset::Combined(sub_rulesets) => {
@@ -234,8 +236,8 @@ impl EGraph {
             let record = &mut schedulers[scheduler_id];
             for (id, rule) in rules.iter() {
                 if !record.rule_info.contains_key(id) {
-                    let info = SchedulerRuleInfo::new(self, rule, id)?;
-                    record.rule_info.insert((*id).to_owned(), info);
+                    let info = SchedulerRuleInfo::new(self, rule, &id.1)?;
+                    record.rule_info.insert(id.clone(), info);
                 }
             }
 
@@ -286,7 +288,7 @@ impl EGraph {
                         rule_info.should_seek =
                             record
                                 .scheduler
-                                .filter_matches(rule_id, ruleset, &mut matches);
+                                .filter_matches(&rule_id.1, ruleset, &mut matches);
                         let table_action = TableAction::new(&self.backend, rule_info.decided);
                         *rule_info.matches.lock().unwrap() =
                             matches.instantiate(state, &table_action);
@@ -317,7 +319,7 @@ impl EGraph {
             // Scheduler state should not count as database progress. Instead it
             // determines whether a no-op iteration can be treated as fully stopped.
             action_report.can_stop = !action_report.updated && {
-                let rule_ids = rules.iter().map(|(id, _)| id.as_str()).collect::<Vec<_>>();
+                let rule_ids = rules.iter().map(|(id, _)| id.1.as_str()).collect::<Vec<_>>();
                 record.scheduler.can_stop(&rule_ids, ruleset)
             };
 
@@ -336,7 +338,8 @@ impl EGraph {
 #[derive(Clone)]
 pub(crate) struct SchedulerRecord {
     scheduler: Box<dyn Scheduler>,
-    rule_info: HashMap<String, SchedulerRuleInfo>,
+    /// Keyed by (owning ruleset, rule name).
+    rule_info: HashMap<(String, String), SchedulerRuleInfo>,
 }
 
 /// To enable scheduling without modifying the backend,
